@@ -162,7 +162,15 @@ class Detector:
     @photon.setter
     def photon(self, obj: Photon) -> None:
         """Set the photon information for the detector."""
-        self.photon._array = obj._array
+        if obj is self._photon:
+            return  # e.g. after 'detector.photon += ...': already validated
+
+        if obj._array is None:
+            self.photon.empty()
+        elif isinstance(obj._array, np.ndarray):
+            self.photon.array = obj.array
+        else:
+            self.photon.array_3d = obj.array_3d
 
     @property
     def scene(self) -> Scene:
